@@ -3,6 +3,7 @@ import PyAirtouch.Spec.Crc
 import PyAirtouch.Spec.Trace
 import PyAirtouch.Spec.TraceParse
 import PyAirtouch.Spec.Heartbeat
+import PyAirtouch.Spec.Discovery
 /-! Line-protocol oracle over the *specification* only (never imports Gen or Model). -/
 open PyAirtouch PyAirtouch.Util PyAirtouch.Spec
 
@@ -21,6 +22,17 @@ def answer (st : OState) (ws : List String) : OState × String :=
     match i.toNat?, t.toNat?, (Heartbeat.splitSemi rest).mapM Heartbeat.parseHEv with
     | some i, some t, some evs => (st, b2s (Heartbeat.c08 i t evs))
     | _, _, _ => (st, "bad-op")
+  | "discspec" :: g :: arrivals =>
+    let parseA (w : String) : Option (Nat × List Nat) :=
+      match w.splitOn ":" with
+      | [t, h] => do pure ((← t.toNat?), (← parseHex h))
+      | _ => none
+    match g.toNat?, arrivals.mapM parseA with
+    | some g, some arr =>
+      let showR (r : Discovery.Response) : String :=
+        s!"R(id={toHex r.airtouchId},name={match r.name with | some n => toHex n | none => "None"},serial={toHex r.serial},host={toHex r.host})"
+      (st, s!"sent={Discovery.expectedRequests g arr} ret={Discovery.returnTime g arr} resp=[{",".intercalate ((Discovery.expectedResponses g arr).map showR)}]")
+    | _, _ => (st, "bad-op")
   | ["trace-begin"] => ({ st with trace := [] }, "ok")
   | "ev" :: rest =>
     match Trace.parseEv rest with
